@@ -81,8 +81,11 @@ let parse toks =
   | "vg.findattr" -> VgFindAttr (i 1, unhex (t 2))
   | _ -> raise Nospec
 
+(* usage: attr_spec [-m] <history-file>     -m: the whole-file implementation model [mstep] instead of [step] *)
 let () =
-  let ic = open_in Sys.argv.(1) in
+  let use_model = Array.length Sys.argv > 2 && Sys.argv.(1) = "-m" in
+  let step = if use_model then mstep else step in
+  let ic = open_in Sys.argv.(Array.length Sys.argv - 1) in
   let st = ref init in
   let ln = ref 0 in
   (try
